@@ -341,10 +341,25 @@ func (p *Parser) parseSpecs(specs []srcInput, listener *TreeShapeListener) (*sys
 		}
 	}
 
+	if err := p.lintAndPostProcess(listener); err != nil {
+		return nil, err
+	}
+	return listener.module, nil
+}
+
+// lintAndPostProcess runs the passes over the merged module. Like the tree walk they rest on assumptions
+// about the shape of the model that syntactically valid input can break (an untyped transform whose
+// fields are not transforms, ...): a panic in them is reported as an error of the compilation.
+func (p *Parser) lintAndPostProcess(listener *TreeShapeListener) (err error) {
+	defer func() {
+		if r := recover(); r != nil {
+			err = syslutil.Exitf(ParseError, fmt.Sprintf("the specification has errors: %v\n", r))
+		}
+	}()
 	listener.lintAppDefs()
 	listener.lintEndpoint()
 	p.postProcess(listener.module)
-	return listener.module, nil
+	return nil
 }
 
 // Takes a starting file and flattens all the imports that were already retrieved into an ordered list (recursively)
